@@ -233,7 +233,10 @@ def one_run(ctx, kind, rng, plan=None, steps=0):
     caller_lists = []
     streams = []          # kept alive: a decoder that borrowed the stream's buffer keeps borrowing it
 
+    alive = []            # every registered object stays alive: `ids` is keyed by id(), and the id of a dead object is reused by new ones
+
     def reg(o):
+        alive.append(o)
         ids[id(o)] = nid[0]
         nid[0] += 1
         return ids[id(o)]
